@@ -542,6 +542,8 @@ pub enum FullMode {
     Error,
     /// `write` returns `Ok(0)` once no room is left
     Zero,
+    /// a non-blocking device whose buffer is full: every further write fails with `WouldBlock`
+    WouldBlock,
 }
 
 pub struct SinkCore {
@@ -702,6 +704,7 @@ impl SinkCore {
                         return Some(match self.full_mode {
                             FullMode::Error => Err(io::Error::new(io::ErrorKind::StorageFull, "minisim: sink full")),
                             FullMode::Zero => Ok(0),
+                            FullMode::WouldBlock => Err(io::Error::new(io::ErrorKind::WouldBlock, "minisim: sink full (would block)")),
                         });
                     }
                     n = n.min(room);
